@@ -4,6 +4,20 @@
 use crate::prng::Prng;
 use crate::util::hex;
 
+/// how many near-limit (≈1 MiB) requests may still be generated in this run (they are large
+/// lines; a handful per run exercise the (1 MiB, 1 MiB + 4 KiB] window of the buffer limit)
+pub static BIG_LEFT: std::sync::atomic::AtomicUsize = std::sync::atomic::AtomicUsize::new(3);
+
+fn take_big(r: &mut Prng, num: u64, den: u64) -> bool {
+    use std::sync::atomic::Ordering;
+    if r.chance(num, den) && BIG_LEFT.load(Ordering::Relaxed) > 0 {
+        BIG_LEFT.fetch_sub(1, Ordering::Relaxed);
+        true
+    } else {
+        false
+    }
+}
+
 pub struct Built {
     pub op: u32,
     pub body: Vec<u8>,
@@ -53,7 +67,10 @@ fn tf(v: bool) -> String {
 
 /// a file name without NUL bytes, of a length class chosen to hit every residue mod 8
 pub fn gen_name(r: &mut Prng) -> Vec<u8> {
-    let len = match r.below(12) {
+    let big = take_big(r, 1, 300);
+    let sel = if big { 0 } else { r.below(12) };
+    let len = match sel {
+        0 if big => (1u64 << 20) + 4096 - 40 - 16 - 1 - r.below(5000),
         0 => 0,
         1 => 1,
         2 => 255,
@@ -210,7 +227,10 @@ pub fn build(op: u32, nodeid: u64, r: &mut Prng) -> Built {
         16 => {
             let fh = b.u64(r.field(64));
             let off = b.u64(r.field(64));
-            let plen = match r.below(8) { 0 => 0, 1 => 1, 2 => r.range(4000, 5000), _ => r.range(1, 300) };
+            // rarely: a payload at the negotiated maximum (1 MiB) and just below it, so that the
+            // whole request lies in the (1 MiB, 1 MiB + 4 KiB] window of the buffer limit
+            let plen = if take_big(r, 1, 40) { (1u64 << 20) - r.below(3) * r.below(4000) }
+                       else { match r.below(8) { 0 => 0, 1 => 1, 2 => r.range(4000, 5000), _ => r.range(1, 300) } };
             let size = b.u32(plen);
             let ff = b.u32(if r.chance(1, 2) { r.below(8) } else { r.field(32) });
             let lo = b.u64(r.field(64));
